@@ -31,6 +31,7 @@ func init() {
 				{Name: "doc-d4", Check: "C03", Params: wp{Type: "doc"}, Depth: 4},
 				{Name: "docarr-d4", Check: "C03", Params: wp{Type: "doc", Prefix: "arr4"}, Depth: 3},
 				{Name: "docnest-d3", Check: "C03", Params: wp{Type: "doc", Prefix: "nest3"}, Depth: 3},
+				{Name: "doc-gotypes-d3", Check: "C03", Params: wp{Type: "doc", Alpha: "gotypes"}, Depth: 3}, // fixed-size arrays, structs, pointers, typed maps as values
 			}
 		} else {
 			p.BudgetS = 3000
@@ -41,6 +42,7 @@ func init() {
 				{Name: "doc-d4", Check: "C03", Params: wp{Type: "doc", Alpha: "rich"}, Depth: 4, MaxState: 400000},
 				{Name: "docarr-d4", Check: "C03", Params: wp{Type: "doc", Prefix: "arr4"}, Depth: 4, MaxState: 400000},
 				{Name: "docnest-d4", Check: "C03", Params: wp{Type: "doc", Prefix: "nest3", Alpha: "rich"}, Depth: 4, MaxState: 400000},
+				{Name: "doc-gotypes-d4", Check: "C03", Params: wp{Type: "doc", Alpha: "gotypes"}, Depth: 4, MaxState: 400000},
 			}
 		}
 		return p
